@@ -19,10 +19,26 @@ Open Scope N_scope.
 (* ---------- small helpers ---------- *)
 Definition hexdig (d : N) : byte := n2b (if d <? 10 then 48 + d else 87 + d).
 
-(* [w] lower-case hex digits of [v], most significant first.  The Go code
-   writes  "00"[1+(bits.Len32(r)-1)/4:]  followed by AppendUint(r, 16): the
-   padding makes the total width 2 (\x), 4 (\u) or 8 (\U) for every rune that
-   reaches the respective arm. *)
+(* strconv.AppendUint(v, base): digits of v in [base] (2..16), most
+   significant first, lower case, no leading zeros, "0" for zero.  [fuel]
+   bounds the number of digits; N.size v is enough for any base >= 2. *)
+Fixpoint fmt_base_fuel (fuel : nat) (base v : N) : list byte :=
+  match fuel with
+  | O => [hexdig (v mod base)]
+  | S f => if v <? base then [hexdig v] else fmt_base_fuel f base (v / base) ++ [hexdig (v mod base)]
+  end.
+Definition fmt_base (base v : N) : list byte := fmt_base_fuel (N.to_nat (N.size v)) base v.
+
+(* the escape digits as appendString writes them:
+     "00"[1+(bits.Len32(uint32(r))-1)/4:]  followed by  AppendUint(r, 16)
+   (and "0000" / "00000000" for \u / \U).  bits.Len32 r = N.size r; Go's int
+   division truncates towards zero, so for r = 0 the index is 1, as with N's
+   truncated subtraction. *)
+Definition go_hex_pad (w : nat) (r : N) : list byte :=
+  repeat x30 (w - (1 + N.to_nat ((N.size r - 1) / 4))) ++ fmt_base 16 r.
+
+(* [w] lower-case hex digits of [v], most significant first: what go_hex_pad
+   amounts to for r < 16^w (proved in Text/TextStrP.v) *)
 Fixpoint hex_fixed (w : nat) (v : N) : list byte :=
   match w with
   | O => []
@@ -75,10 +91,10 @@ Definition esc_simple (r : N) : list byte :=
   else if r =? 10 then [x6e]       (* n *)
   else if r =? 13 then [x72]       (* r *)
   else if r =? 9 then [x74]        (* t *)
-  else x78 :: hex_fixed 2 r.       (* xNN *)
+  else x78 :: go_hex_pad 2 r.      (* xNN *)
 
 Definition esc_unicode (r : N) : list byte :=
-  if r <=? 65535 then x75 :: hex_fixed 4 r else x55 :: hex_fixed 8 r.
+  if r <=? 65535 then x75 :: go_hex_pad 4 r else x55 :: go_hex_pad 8 r.
 
 Inductive enc_step :=
 | EEsc (out : list byte) (n : nat)   (* escape sequence written, n input bytes consumed *)
